@@ -156,3 +156,124 @@ def periodic_rainflow(seq):
             cycles.append((min(st[-3], st[-2]), max(st[-3], st[-2])))
             del st[-3:-1]
     return sorted(cycles)
+
+
+# ---------------------------------------------------------------- reference: which reversals the two passes are fed
+def _interior_reversals(sig):
+    """[(i, v)] interior reversals, a plateau reported at its first sample (naive)."""
+    out = []
+    n = len(sig)
+    for i in range(1, n - 1):
+        v = sig[i]
+        if sig[i - 1] == v:
+            continue
+        nxt = next((sig[j] for j in range(i + 1, n) if sig[j] != v), None)
+        if nxt is None:
+            continue
+        if (sig[i - 1] < v and nxt < v) or (sig[i - 1] > v and nxt > v):
+            out.append((i, v))
+    return out
+
+
+def _ref_new_turns(tail, chunk, flush):
+    swt = list(tail) + list(chunk)
+    tps = _interior_reversals(swt)
+    turns = [v for _i, v in tps]
+    tail = swt[tps[-1][0]:] if tps else swt
+    if flush and tail:
+        turns.append(tail[-1])
+        tail = tail[-1:]
+    return turns, tail
+
+
+def ref_feed(samples):
+    """Reversal sequences handed to pass 1 and pass 2 for a one-point load sequence."""
+    s = list(samples)
+    n = len(s)
+    idx = [i for i, _v in _interior_reversals(s + s) if i < n]
+    if idx and idx[-1] != n - 1 and idx[-1] != 0:
+        s = s[:idx[-1] + 1]
+    x1 = [0] + s
+    flush1 = (len(x1) - 1) in [i for i, _v in _interior_reversals(x1 + x1)]
+    t1, tail = _ref_new_turns([], x1, flush1)
+    t2, _ = _ref_new_turns(tail, s, True)
+    return t1, t2
+
+
+class RefLaw:
+    """integer versions of the stub laws for the reference procedure"""
+
+    def __init__(self, name):
+        self.name = name
+
+    @staticmethod
+    def _sat(a, x):
+        return 4 * x if abs(x) <= a else (1 if x > 0 else -1) * (4 * a + (abs(x) - a))
+
+    def sigma(self, l):
+        return 2 * l if self.name == "linear" else self._sat(100, l)
+
+    def eps(self, s, l):
+        return 3 * l if self.name == "linear" else 2 * s + l * abs(l)
+
+    def dsigma(self, d):
+        return 2 * d if self.name == "linear" else self._sat(200, d)
+
+    def deps(self, s, d):
+        return 3 * d if self.name == "linear" else 2 * s + d * abs(d)
+
+
+def ref_guideline(law, turns1, turns2):
+    """FKM-nonlinear HCM procedure on one point: primary branch, Masing secondary branches, Memory 1-3.
+    Returns (records, strains); a record is (run, closed, loadMin, loadMax, sMin, sMax, eMin, eMax, eMinLF, eMaxLF)."""
+    res, ir, lmax = [], 1, 0
+    e_min_lf = e_max_lf = 0
+    recs, strains = [], []
+    prev_load = 0
+
+    def primary(l):
+        s = law.sigma(l)
+        return (l, s, law.eps(s, l))
+
+    def secondary(p, l):
+        d = l - p[0]
+        ds = law.dsigma(d)
+        return (l, p[1] + ds, p[2] + law.deps(ds, d))
+
+    for run, turns in ((1, turns1), (2, turns2)):
+        prev_load = 0 if PREV_LOAD_RESETS else prev_load
+        for l in turns:
+            while True:
+                iz = len(res)
+                if iz < ir:
+                    p = primary(l)
+                    break
+                if iz == ir:
+                    j = res[-1]
+                    if abs(l) > lmax:
+                        recs.append((run, False, -abs(j[0]), abs(j[0]), -abs(j[1]), abs(j[1]), -abs(j[2]), abs(j[2]), e_min_lf, e_max_lf))
+                        ir += 1
+                        p = primary(l)
+                    else:
+                        p = secondary(j, l)
+                    break
+                j, i = res[-1], res[-2]
+                if abs(l - j[0]) >= abs(j[0] - i[0]):
+                    recs.append((run, True, min(i[0], j[0]), max(i[0], j[0]), min(i[1], j[1]), max(i[1], j[1]),
+                                 min(i[2], j[2]), max(i[2], j[2]), e_min_lf, e_max_lf))
+                    del res[-2:]
+                    continue
+                p = secondary(j, l)
+                break
+            res.append(p)
+            lmax = max(lmax, abs(l))
+            strains.append(p[2])
+            if prev_load < l:
+                e_max_lf = max(e_max_lf, p[2])
+            else:
+                e_min_lf = min(e_min_lf, p[2])
+            prev_load = l
+    return recs, strains
+
+
+PREV_LOAD_RESETS = False
